@@ -21,7 +21,7 @@ BOUNDS = {
     "quick": "abc|abt explicit, abc generated, diamonds explicit, conn2/abc generated, closure/ab generated",
     "thorough": "quick + abct, abcdt, abu w3, d3 chains, diamonds generated, conn2/abcd, closure/abc",
 }
-QUICK = ["abc/explicit", "abt/explicit", "abc/generated", "diamond/explicit", "conn2/abc/generated", "closure/ab/generated", "mix3/abtn/explicit", "empty/ab", "notraw/at+explicit", "notraw/mix3+abt+explicit", "illdef/x", "notraw/d3+ab+explicit", "alt/mix3b+abt+explicit"]
+QUICK = ["abc/explicit", "abt/explicit", "abc/generated", "diamond/explicit", "conn2/abc/generated", "closure/ab/generated", "mix3/abtn/explicit", "empty/ab", "notraw/at+explicit", "notraw/mix3+abt+explicit", "illdef/x", "notraw/d3+ab+explicit", "alt/mix3b+abt+explicit", "wide/1", "wide/2"]
 THOROUGH = QUICK + ["abct/explicit", "abcdt/explicit", "abu/explicit/w3", "d3/abc/explicit", "d3/abt/generated", "diamond/generated",
                     "conn2/abcd/generated", "closure/abc/generated", "abtn/explicit"]
 MAXCOLS = 14
@@ -90,14 +90,22 @@ def check_model(m, acc, fam, k):
     acc.n("models")
     acc.state(structure(obj))
     box = [tuple(v.bounds.as_tuple()) for v in cols]
-    pts = ref.box_points(box)
+    wide = any(hi_ - lo_ > 22 for lo_, hi_ in box)
+    if wide:
+        # a column too wide to enumerate: region alphabet (around 0 and at both extremes, mc/ref.py domain()) for it, every value for
+        # the others; both clauses are then decided for every leaf assignment / point of that grid
+        doms = [ref.domain(int(lo_), int(hi_)) for lo_, hi_ in box]
+        pts = np.array(list(itertools.product(*doms)), dtype=np.int64).reshape(-1, len(box))
+        acc.n("models_on_region_grid")
+    else:
+        pts = ref.box_points(box)
     feas = ref.feasible_mask(A, b, pts)
     acc.n("traces", len(pts))
     acc.obs(A.tolist(), b.tolist(), ids, int(feas.sum()))
     lidx = [ids.index(i) for i in leaves]
     lids = list(leaves)
     # leaf part -> (truth, any feasible completion)
-    alphas = list(ref.assignments(leaves))
+    alphas = list(ref.assignments_dom(leaves) if wide else ref.assignments(leaves))
     if m[0] == 'N':
         tr = {tuple(a[i] for i in lids): ref.truth(m, a) for a in alphas}
     else:
